@@ -5,6 +5,24 @@
    fx_sd = fixes/F14.patch (in the tree). *)
 Require Import AV.Lib.Base AV.H1.ConnRec AV.H1.ConnState AV.H1.ConnSpec AV.H1.ConnProofs.
 Require Import AV.H1.ConnGraceful AV.H1.ConnTimers AV.H1.ConnSeal AV.H1.ConnLocal AV.H1.ConnKeepAlive.
+Require Import AV.Gen.ConnStateTables AV.H1.ConnTie.
+
+(* TIE TO THE SOURCE TEXT (see Props/C03.v): for the tree as it is the model's timer and shutdown
+   transitions ARE the interpretation of the generated statement lists of poll_head_timer,
+   poll_ka_timer, poll_shutdown_timer (bodies under `timer.poll(cx).is_ready()`),
+   ensure_linger_timer, enter_linger, poll_graceful_shutdown, the DRAINING gate of poll_request, and
+   the draining / idle arms of poll_response. *)
+Theorem C06_timers_match_source : forall c s, fx c = mkFixes true false true ->
+  poll_head_timer c s = (if t_ready (head_t s) (now s) then run c env0 CS_HEAD_TIMER s else s) /\
+  poll_ka_timer c s = (if t_ready (ka_tm s) (now s) then run c env0 CS_KA_TIMER s else s) /\
+  poll_sd_timer s = (if t_ready (sd_t s) (now s) then run c env0 CS_SD_TIMER s else s) /\
+  ensure_linger_timer c s = (run c env0 CS_ENSURE_LINGER s, match out c env0 CS_ENSURE_LINGER s with ORetBool b => b | _ => false end) /\
+  set_finished true (set_linger true (set_keep_alive false s)) = run c env0 CS_ENTER_LINGER s /\
+  (forall sig, poll_graceful sig s = run c (with_notified (sig_armed s && sig) env0) CS_GRACEFUL_SIGNAL s) /\
+  G c env0 CS_REQUEST_DRAIN_GATE s = (draining s && is_none (dstate s)) /\
+  (forall f, dstate s = SNone -> draining s = true -> poll_response (S f) c s = run c env0 CS_DRAINING_ARM s) /\
+  (forall f, dstate s = SNone -> draining s = false -> messages s = [] -> poll_response (S f) c s = run c env0 CS_POP_NONE s).
+Proof. intros c s T. exact (timers_match_source c s T). Qed.
 
 (* the cached clock is at most one DateService period behind and never ahead: every deadline
    [cached now + timeout] lies in (now + timeout - TICK, now + timeout] *)
